@@ -47,6 +47,17 @@ pub fn spec_for(prop: &str, thorough: bool, rng: &mut Rng) -> RunSpec {
             g.macro_den = *rng.pick(&[12, 25, 50]);
             RunSpec { world, cfg, gen: g, n_ops }
         }
+        "C04" => {
+            // short histories (each is re-executed once per injected panic), biased to re-hashing states
+            let world = pick_world(rng, &[("M16", 4), ("Mpod", 4), ("M208", 1)]);
+            let cfg = base_cfg(rng, 3);
+            let mut w = swarm(rng, MAP_CORE);
+            w.extend_from_slice(&[(Kd::CloneTo, 3), (Kd::CloneFrom, 6), (Kd::ExtractIf, 3), (Kd::Drain, 2), (Kd::Iter, 2), (Kd::IntoIter, 2), (Kd::Extend, 4), (Kd::Retain, 3), (Kd::FillNoAlloc, 2)]);
+            let mut g = gen(Family::Map, *rng.pick(&[12u32, 40, 64, 64, 100]), w);
+            g.macro_den = *rng.pick(&[6, 10, 20]);
+            let n_ops = rng.range(8, if thorough { 120 } else { 80 }) as usize;
+            RunSpec { world, cfg, gen: g, n_ops }
+        }
         _ => {
             let world = pick_world(rng, MAP_WORLDS);
             let cfg = base_cfg(rng, 3);
